@@ -11,14 +11,19 @@ static ALLOC: vlib::alloc::Counting = vlib::alloc::Counting;
 mod common;
 mod common_assets;
 mod corpus;
+mod foreign;
 mod ctx;
 mod hooks;
 mod interpose;
 mod keys;
 mod oracles;
+mod pkgtool;
 mod spec;
+mod sweep;
 
 mod c01;
+mod c03;
+mod c04;
 mod c16;
 mod c13;
 mod c15;
@@ -39,18 +44,27 @@ fn main() {
     if args.is_empty() {
         usage();
     }
-    if args[0] == "worker" {
-        if args.len() != 7 {
+    if args[0] == "worker" || args[0] == "worker-one" {
+        let one = args[0] == "worker-one";
+        if args.len() != if one { 8 } else { 7 } {
             usage();
         }
         let tier = Tier::parse(&args[3]).unwrap_or_else(|| usage());
         let ctx = Ctx::new(&args[1], tier);
-        let (start, stride, end) = (
-            args[4].parse().unwrap_or_else(|_| usage()),
-            args[5].parse().unwrap_or_else(|_| usage()),
-            args[6].parse().unwrap_or_else(|_| usage()),
+        let k = if one { 5 } else { 4 };
+        let (start, stride, end): (u64, u64, u64) = (
+            args[k].parse().unwrap_or_else(|_| usage()),
+            args[k + 1].parse().unwrap_or_else(|_| usage()),
+            args[k + 2].parse().unwrap_or_else(|_| usage()),
         );
-        dispatch_worker(&ctx, &args[2], start, stride, end);
+        let sweeps = worker_sweeps(&ctx);
+        if one {
+            let index: u64 = args[4].parse().unwrap_or_else(|_| usage());
+            let Some(s) = sweeps.iter().find(|s| s.name == args[2]) else { usage() };
+            vlib::alloc::set_refuse_above(sweep::WORKER_MEM_REFUSE);
+            vlib::worker::worker_loop(0, 1, 1, |_, acc| (s.case)(index, acc));
+        }
+        sweep::dispatch(sweeps, &args[2], start, stride, end);
     }
     let id = args[0].to_uppercase();
     let mut tier = std::env::var("VERIF_TIER").ok().and_then(|t| Tier::parse(&t)).unwrap_or(Tier::Quick);
@@ -90,6 +104,8 @@ fn main() {
 fn dispatch(ctx: &Ctx) -> i32 {
     match ctx.property.as_str() {
         "C01" => c01::run(ctx),
+        "C03" => c03::run(ctx),
+        "C04" => c04::run(ctx),
         "C16" => c16::run(ctx),
         "C13" => c13::run(ctx),
         "C15" => c15::run(ctx),
@@ -106,6 +122,8 @@ fn dispatch(ctx: &Ctx) -> i32 {
 fn dispatch_replay(ctx: &Ctx, v: &serde_json::Value) -> i32 {
     match ctx.property.as_str() {
         "C01" => c01::replay(ctx, v),
+        "C03" => c03::replay(ctx, v),
+        "C04" => c04::replay(ctx, v),
         "C16" => c16::replay(ctx, v),
         "C13" => c13::replay(ctx, v),
         "C15" => c15::replay(ctx, v),
@@ -119,7 +137,15 @@ fn dispatch_replay(ctx: &Ctx, v: &serde_json::Value) -> i32 {
     }
 }
 
-fn dispatch_worker(ctx: &Ctx, _sub: &str, _start: u64, _stride: u64, _end: u64) -> ! {
-    eprintln!("MACHINERY: no worker for {}", ctx.property);
-    std::process::exit(2)
+fn worker_sweeps(ctx: &Ctx) -> Vec<sweep::Sweep> {
+    match ctx.property.as_str() {
+        "C01" => c01::sweeps(ctx),
+        "C03" => c03::sweeps(ctx),
+        "C04" => c04::sweeps(ctx),
+        "C16" => c16::sweeps(ctx),
+        _ => {
+            eprintln!("MACHINERY: no worker sweeps for {}", ctx.property);
+            std::process::exit(3)
+        }
+    }
 }
